@@ -59,6 +59,9 @@ func (p c01) NumCases(c *run.Ctx) int {
 func stdProfile(r *rand.Rand) (gen.Profile, gen.DataCfg) {
 	p := gen.DefaultProfile()
 	d := gen.DataCfg{Seed: uint64(r.Int63()), PNull: []int{0, 10, 30}[r.Intn(3)], ListMax: 1 + r.Intn(4), Pool: 2 + r.Intn(4)}
+	if r.Intn(4) == 0 {
+		p.CommandOnly = 1
+	}
 	return p, d
 }
 
@@ -76,6 +79,18 @@ func oddNamesProfile(r *rand.Rand) (gen.Profile, gen.DataCfg) {
 	p.NodeNamedField, p.ScalarArgs = 0.5, true
 	p.ValueWithID = 0.5
 	p.PArgs = 0.45
+	return p, d
+}
+
+// abstractListProfile: more interfaces and unions, most references lists, lists of 3 to 6 entries: the entries of a
+// list of an abstract type then are of several types, covered or not by the fragments of an operation.
+func abstractListProfile(r *rand.Rand) (gen.Profile, gen.DataCfg) {
+	p, d := stdProfile(r)
+	p.Interfaces, p.Unions = [2]int{1, 2}, [2]int{1, 2}
+	p.PList, p.RootFields = 0.7, [2]int{5, 8}
+	p.AbstractRoots = true
+	d.ListMax, d.PNull = 6, []int{0, 10}[r.Intn(2)]
+	d.FixedLen = 3 + r.Intn(4)
 	return p, d
 }
 
@@ -114,6 +129,9 @@ func (p c01) Gen(c *run.Ctx, idx int) (json.RawMessage, error) {
 	if uidx%6 == 4 {
 		cu, err = universe(c.Seed, "odd", uidx, oddNamesProfile)
 	}
+	if uidx%6 == 3 {
+		cu, err = universe(c.Seed, "abslist", uidx, abstractListProfile)
+	}
 	if err != nil {
 		return nil, err
 	}
@@ -147,6 +165,9 @@ func (p c01) Gen(c *run.Ctx, idx int) (json.RawMessage, error) {
 	var op *gen.Op
 	if idx%10 == 9 {
 		op = genDedupProbe(r, cu.u)
+	}
+	if idx%20 == 17 || (uidx%6 == 3 && idx%5 == 2) {
+		op = genPartialCoverProbe(rng(c.Seed, "c01/partial-cover", idx), cu)
 	}
 	if op == nil {
 		op = genValidOp(r, cu.mono, prof)
